@@ -199,6 +199,28 @@ func CtxMap(ctx context.Context, m map[string]int, v interface{}, p *int) int {
 var errType = reflect.TypeOf((*error)(nil)).Elem()
 var ctxType = reflect.TypeOf((*context.Context)(nil)).Elem()
 
+// DivError is a concrete error type: a function declared to return *DivError hands back a typed nil
+// pointer when it succeeds.
+type DivError struct{ Msg string }
+
+func (e *DivError) Error() string { return e.Msg }
+
+func Div(a, b int) (int, *DivError) {
+	Rec.note("div", a, b)
+	if b == 0 {
+		return 0, &DivError{fmt.Sprintf("division of %d by zero", a)}
+	}
+	return a / b, nil
+}
+
+func Positive(x int) *DivError {
+	Rec.note("positive", x)
+	if x <= 0 {
+		return &DivError{fmt.Sprintf("%d is not positive", x)}
+	}
+	return nil
+}
+
 func mk(name string, f interface{}) Fn {
 	t := reflect.TypeOf(f)
 	fn := Fn{Name: name, F: f, Variadic: t.IsVariadic()}
@@ -210,7 +232,7 @@ func mk(name string, f interface{}) Fn {
 		fn.In = append(fn.In, t.In(i))
 	}
 	for i := 0; i < t.NumOut(); i++ {
-		if i == t.NumOut()-1 && t.Out(i) == errType {
+		if i == t.NumOut()-1 && t.Out(i).Implements(errType) {
 			fn.Err = true
 			continue
 		}
@@ -225,6 +247,8 @@ var Catalogue = []Fn{
 	mk("maps", Maps), mk("echo", Echo), mk("join", Join), mk("sum", Sum), mk("any", Any), mk("withCtx", WithCtx), mk("special", Special), mk("multi", Multi),
 	mk("repeat", Repeat), mk("tree", Tree), mk("nothing", Nothing), mk("onlyErr", OnlyErr), mk("名字", Hello), mk("ns_hello", Hello),
 	mk("ctxAny", CtxAny), mk("ctxVar", CtxVar), mk("ctxMap", CtxMap),
+	// the last result is a concrete error type (a typed nil pointer on success)
+	mk("div", Div), mk("positive", Positive),
 	// names whose cased letters are not ASCII: lookup is case-insensitive for them too
 	mk("привет", Hello), mk("Ärger_ölçüm", Add),
 }
